@@ -21,6 +21,9 @@ RULE = (
     "operation from the registry (plus groups, key_count, factorize_2d, crosstab, subset_ratio with two masks) with values in a container (NumPy, "
     "pandas, nullable pandas, Arrow-backed pandas, pa.Array, polars, zero-copy views included) and a mask (boolean array / Series, slice, or positions incl. negative ones); after every "
     "call the returned result is overwritten in place (raw buffer and pandas setitem) and the call is repeated.  "
+    "Sub-check `functions`: the stand-alone functions and array-level kernels (ema adjust on/off and time weighted, ema_grouped, "
+    "numba.group_* with 1-2 threads, cum*, rolling_*, shift/diff, nan-reducers, nb_dot, pretty_cut, bools_to_categorical) on writable NumPy "
+    "arrays, views into a larger buffer and Series, with the same three obligations.  "
     "Non-trivial = the container is not plain NumPy or the history has >= 2 steps on one object.  Distinct = hash of "
     "the history."
 )
@@ -330,6 +333,98 @@ def check(case, ctx):
                 raise Violation(f"repeat-differs-after-overwrite:{step['op']}", f"{what}: {v.msg[:300]}")
 
 
+# ---------------------------------------------------------------------------
+# stand-alone functions and array-level kernels: same three obligations (inputs unchanged, result no writable view of an
+# input, overwriting the result changes neither the inputs nor a repeated call)
+def _fn_table():
+    from groupby_lib import bools_to_categorical, ema, ema_grouped, nanops, nb_dot, pretty_cut
+    from groupby_lib.groupby import numba as nbf
+
+    T = {
+        "ema_alpha": lambda A: ema(A["v"], alpha=0.5, adjust=A["adjust"]),
+        "ema_halflife": lambda A: ema(A["v"], halflife=2.0, adjust=A["adjust"]),
+        "ema_timed": lambda A: ema(A["v"], halflife="1s", times=A["t"]),
+        "ema_grouped": lambda A: ema_grouped(A["codes"], 3, A["v"], alpha=0.5, mask=A["m"]),
+        "ema_grouped_timed": lambda A: ema_grouped(A["codes"], 3, A["v"], halflife="1s", times=A["t"], mask=A["m"]),
+        "nb_dot": lambda A: nb_dot(A["mat"], A["vec"]),
+        "pretty_cut": lambda A: pretty_cut(A["v"], [-2.0, 0.0, 2.5]),
+        "bools_to_categorical": lambda A: bools_to_categorical(A["bools"]),
+    }
+    for k in ("sum", "mean", "min", "max", "first", "last", "count"):
+        T[f"group_{k}"] = (lambda f: lambda A: f(A["codes"], A["v"], 3, mask=A["m"], n_threads=A["nt"]))(getattr(nbf, f"group_{k}"))
+    for k in ("cumsum", "cummin", "cummax"):
+        T[f"nb_{k}"] = (lambda f: lambda A: f(A["codes"], A["v"], 3, mask=A["m"]))(getattr(nbf, k))
+    for k in ("rolling_sum", "rolling_mean", "rolling_min", "rolling_max", "rolling_shift", "rolling_diff"):
+        T[f"nb_{k}"] = (lambda f: lambda A: f(A["codes"], A["v"], 3, 2, mask=A["m"]))(getattr(nbf, k))
+    for k in ("nansum", "nanmean", "nanmin", "nanmax", "nanvar", "nanstd"):
+        T[k] = (lambda f: lambda A: f(A["v"], n_threads=A["nt"]))(getattr(nanops, k))
+    return T
+
+
+FN_NAMES = ("ema_alpha", "ema_halflife", "ema_timed", "ema_grouped", "ema_grouped_timed", "nb_dot", "pretty_cut", "bools_to_categorical",
+            "group_sum", "group_mean", "group_min", "group_max", "group_first", "group_last", "group_count", "nb_cumsum", "nb_cummin",
+            "nb_cummax", "nb_rolling_sum", "nb_rolling_mean", "nb_rolling_min", "nb_rolling_max", "nb_rolling_shift", "nb_rolling_diff",
+            "nansum", "nanmean", "nanmin", "nanmax", "nanvar", "nanstd")
+
+
+@st.composite
+def fn_case(draw, variant):
+    n = draw(st.sampled_from([2, 3, 4, 6, 8, 12]))
+    fn = draw(st.sampled_from(FN_NAMES))
+    dt = draw(st.sampled_from(["float64", "float64", "float32", "int64"]))
+    if fn.startswith(("nb_rolling", "ema")) and dt == "float32" and draw(st.booleans()):
+        dt = "float64"
+    vc = draw(st.sampled_from(["np", "np_view", "series"])) if not fn.startswith(("group_", "nb_", "nan")) else draw(st.sampled_from(["np", "np_view"]))
+    return {"n": n, "fn": fn, "vals": draw(S.value_column(n, dtypes=(dt,), regime="exact", null_modes=["none", "none", "some"])), "vc": vc,
+            "codes": draw(st.lists(st.integers(-1, 2), min_size=n, max_size=n)), "adjust": draw(st.booleans()),
+            "mask": draw(st.one_of(st.none(), st.lists(st.booleans(), min_size=n, max_size=n))), "nt": draw(st.sampled_from([1, 1, 2]))}
+
+
+def fn_check(case, ctx):
+    n, fn = case["n"], case["fn"]
+    v, base = render_value_obj({"vals": case["vals"], "vc": case["vc"]}, n)
+    A = {"v": v, "codes": np.array(case["codes"], dtype=np.int64), "adjust": case["adjust"],
+         "m": None if case["mask"] is None else np.array(case["mask"], dtype=bool), "nt": min(case["nt"], n),
+         "t": (10**18 + np.arange(n, dtype=np.int64) * 10**9).view("M8[ns]"),
+         "vec": np.arange(1.0, 4.0), "mat": None, "bools": None}
+    fl = np.asarray(pd.Series(np.asarray(v)).astype("float64").fillna(0.0))
+    A["mat"] = np.column_stack([fl, fl * 2, fl + 1])
+    A["bools"] = pd.DataFrame({"a": fl > 0, "b": fl < 0})
+    f = _fn_table()[fn]
+    ctx.seen("functions", case, case["vc"] != "np" or case["adjust"] is False, [f"fn:{fn}", f"fvc:{case['vc']}", f"fdtype:{case['vals']['dtype']}", f"adjust:{case['adjust']}"])
+    names = ("v", "codes", "m", "t", "vec", "mat", "bools")
+    snaps = tuple(snapshot(A[k]) for k in names) + (snapshot(base),)
+    res = f(A)
+    what = f"{fn} (values in {case['vc']} {case['vals']['dtype']})"
+    if tuple(snapshot(A[k]) for k in names) + (snapshot(base),) != snaps:
+        raise Violation(f"fn-input-modified:{fn}", f"{what}: an input changed during the call")
+    ins = [b for k in names for b in raw_buffers(A[k])] + raw_buffers(base)
+    for ra in result_arrays(res):
+        for ia in ins:
+            try:
+                shared = np.shares_memory(ra, ia)
+            except Exception:
+                shared = False
+            if shared and ra.flags.writeable:
+                raise Violation(f"fn-result-aliases-input:{fn}", f"{what}: the result is a WRITABLE view of an input")
+    def _norm(r):
+        if isinstance(r, np.generic) or (isinstance(r, np.ndarray) and r.ndim == 0) or isinstance(r, (int, float)):
+            r = np.atleast_1d(np.asarray(r)).copy()
+        return ops.normalise(r) if isinstance(r, (np.ndarray, pd.Series, pd.DataFrame, pl.Series, pl.DataFrame)) else None
+
+    saved = _norm(res)
+    scribble(res)
+    if tuple(snapshot(A[k]) for k in names) + (snapshot(base),) != snaps:
+        raise Violation(f"fn-write-through-to-input:{fn}", f"{what}: overwriting the returned result changed an input")
+    if saved is not None:
+        res2 = f(A)
+        try:
+            ops.compare_norm(saved, _norm(res2), tol=1e-12, what="repeat")
+        except Violation as e:
+            raise Violation(f"fn-repeat-differs:{fn}", f"{what}: {e.msg[:300]}")
+
+
 SUBS = [
+    Sub("functions", fn_check, strategy=lambda tier, v: fn_case(v), variants=("-",), examples=(4000, 60000), replicas=(2, 4), cost={"-": 200}),
     Sub("history", check, strategy=lambda tier, v: history(v), variants=("-",), examples=(6400, 100000), replicas=(16, 16), cost={"-": 1600}),
 ]
